@@ -113,11 +113,12 @@ def shapeList : List Tree → Except Err (List Nat)
       | _ :: _, [] => .error .value
 end
 
+def prodL : List Nat → Nat
+  | [] => 1
+  | a :: r => a * prodL r
+
 /-- `np.atleast_1d(x).size` -/
-def Tree.npSize (t : Tree) : Except Err Nat :=
-  match t with
-  | .leaf _ => .ok 1
-  | .node _ => t.shape.map (fun s => s.foldl (· * ·) 1)
+def Tree.npSize (t : Tree) : Except Err Nat := t.shape.map prodL
 
 /-! ## dictionaries -/
 
@@ -126,8 +127,9 @@ abbrev Dict := List (String × Val)
 def dget (d : Dict) (k : String) : Option Val := d.lookup k
 def dhas (d : Dict) (k : String) : Bool := (d.lookup k).isSome
 /-- `d[k] = v` (position kept when the key exists, appended otherwise) -/
-def dset (d : Dict) (k : String) (v : Val) : Dict :=
-  if dhas d k then d.map (fun p => if p.1 = k then (k, v) else p) else d ++ [(k, v)]
+def dset : Dict → String → Val → Dict
+  | [], k, v => [(k, v)]
+  | (k', v') :: r, k, v => if k' = k then (k, v) :: r else (k', v') :: dset r k v
 def ddel (d : Dict) (k : String) : Dict := d.filter (fun p => p.1 ≠ k)
 def dkeys (d : Dict) : List String := d.map (·.1)
 
@@ -312,6 +314,9 @@ def validateK : Kind → Dict → Except Err Dict
 
 def Atom.validate (a : Atom) : Except Err Atom := (validateK a.kind a.d).map (fun d => { a with d := d })
 
+/-- the default `lam = 0.6` (the IEEE double, exactly) -/
+def lamDefault : Val := .sc (.flt (5404319552844595 / 9007199254740992))
+
 /-- keyword names accepted by the constructors -/
 def kwNames : Kind → List String
   | .intercept => ["verbose"]
@@ -341,7 +346,7 @@ def rawAtom (k : Kind) (kw : Dict) : Except Err Dict :=
     | none => .error .type
     | some f =>
       .ok ([("_name", vstr "linear_term"), ("_minimal_name", vstr "l"), ("feature", f),
-            ("lam", kwGet kw "lam" (.sc (.flt (6/10)))), ("dtype", vstr "numerical"), ("fit_linear", vbool true),
+            ("lam", kwGet kw "lam" lamDefault), ("dtype", vstr "numerical"), ("fit_linear", vbool true),
             ("fit_splines", vbool false), ("penalties", kwGet kw "penalties" (vstr "auto")), ("constraints", vnone),
             ("verbose", kwGet kw "verbose" (vbool false))]
            ++ coreTail ["fit_splines", "fit_linear", "dtype", "constraints"])
@@ -354,7 +359,7 @@ def rawAtom (k : Kind) (kw : Dict) : Except Err Dict :=
             ("spline_order", kwGet kw "spline_order" (vint 3)), ("by", kwGet kw "by" vnone),
             ("_name", vstr "spline_term"), ("_minimal_name", vstr "s"), ("edge_knots", ek)]
            ++ (if ek == vnone then [] else [("edge_knots_", ek)])
-           ++ [("feature", f), ("lam", kwGet kw "lam" (.sc (.flt (6/10)))), ("dtype", kwGet kw "dtype" (vstr "numerical")),
+           ++ [("feature", f), ("lam", kwGet kw "lam" lamDefault), ("dtype", kwGet kw "dtype" (vstr "numerical")),
                ("fit_linear", vbool false), ("fit_splines", vbool true), ("penalties", kwGet kw "penalties" (vstr "auto")),
                ("constraints", kwGet kw "constraints" vnone), ("verbose", kwGet kw "verbose" (vbool false))]
            ++ coreTail ["fit_linear", "fit_splines"])
@@ -364,7 +369,7 @@ def rawAtom (k : Kind) (kw : Dict) : Except Err Dict :=
     | some f =>
       .ok ([("coding", kwGet kw "coding" (vstr "one-hot")), ("basis", vstr "ps"), ("n_splines", vint 20),
             ("spline_order", vint 0), ("by", vnone), ("_name", vstr "factor_term"), ("_minimal_name", vstr "f"),
-            ("edge_knots", vnone), ("feature", f), ("lam", kwGet kw "lam" (.sc (.flt (6/10)))),
+            ("edge_knots", vnone), ("feature", f), ("lam", kwGet kw "lam" lamDefault),
             ("dtype", vstr "categorical"), ("fit_linear", vbool false), ("fit_splines", vbool true),
             ("penalties", kwGet kw "penalties" (vstr "auto")), ("constraints", vnone),
             ("verbose", kwGet kw "verbose" (vbool false))]
@@ -633,7 +638,11 @@ def Term.fromInfo (i : TermInfo) : Except Err Term :=
 
 /-- the de-duplication key `str(sorted(term.info.items()))`: the items sorted by name (the infos of the
 marginals of a tensor are printed in insertion order) -/
-def sortDict (d : Dict) : Dict := d.mergeSort (fun a b => a.1 ≤ b.1)
+def insertSorted (p : String × Val) : Dict → Dict
+  | [] => [p]
+  | q :: r => if p.1 ≤ q.1 then p :: q :: r else q :: insertSorted p r
+
+def sortDict (d : Dict) : Dict := d.foldr insertSorted []
 
 def Term.key (t : Term) : TermInfo := { d := sortDict t.info.d, sub := t.info.sub }
 
@@ -745,40 +754,45 @@ def featData (data : List FeatData) (f : Val) : Except Err FeatData :=
       | none => .error .value
   | _ => .error .unsupported
 
+/-- the `by >= X.shape[1]` check -/
+def checkBy (data : List FeatData) (by_ : Val) : Except Err Unit :=
+  match by_ with
+  | .sc .none => .ok ()
+  | .sc (.int b) => if b ≥ data.length then .error .value else .ok ()
+  | _ => .error .unsupported
+
+/-- `SplineTerm.compile`: user knots win, otherwise the knots follow the data -/
+def splineKnots (d : Dict) (fd : FeatData) : Except Err Val :=
+  if (dget d "edge_knots").getD vnone == vnone then do
+    let dt ← attr d "dtype"
+    genEdgeKnots fd dt
+  else .ok ((dget d "edge_knots").getD vnone)
+
 def compileAtom (data : List FeatData) (a : Atom) : Except Err Atom :=
   match a.kind with
   | .intercept => .ok a
   | .linear => do
-      let fd ← featData data (← attr a.d "feature")
-      let ek ← genEdgeKnots fd (← attr a.d "dtype")
+      let f ← attr a.d "feature"
+      let fd ← featData data f
+      let dt ← attr a.d "dtype"
+      let ek ← genEdgeKnots fd dt
       .ok { a with d := dset a.d "edge_knots_" ek }
   | .spline => do
-      let fd ← featData data (← attr a.d "feature")
+      let f ← attr a.d "feature"
+      let fd ← featData data f
       let by_ ← attr a.d "by"
-      match by_ with
-      | .sc .none => pure ()
-      | .sc (.int b) => if b ≥ data.length then .error .value else pure ()
-      | _ => .error .unsupported
-      let ek := (dget a.d "edge_knots").getD vnone
-      if ek == vnone then do
-        let g ← genEdgeKnots fd (← attr a.d "dtype")
-        .ok { a with d := dset a.d "edge_knots_" g }
-      else .ok { a with d := dset a.d "edge_knots_" ek }
+      checkBy data by_
+      let ek ← splineKnots a.d fd
+      .ok { a with d := dset a.d "edge_knots_" ek }
   | .factor => do
-      let fd ← featData data (← attr a.d "feature")
+      let f ← attr a.d "feature"
+      let fd ← featData data f
       let by_ ← attr a.d "by"
-      match by_ with
-      | .sc .none => pure ()
-      | .sc (.int b) => if b ≥ data.length then .error .value else pure ()
-      | _ => .error .unsupported
-      let ek := (dget a.d "edge_knots").getD vnone
-      let d1 ← if ek == vnone then do
-          let g ← genEdgeKnots fd (← attr a.d "dtype")
-          pure (dset a.d "edge_knots_" g)
-        else pure (dset a.d "edge_knots_" ek)
-      let d2 := dset d1 "n_splines" (vint fd.nuniq)
-      let g ← genEdgeKnots fd (← attr d2 "dtype")
-      .ok { a with d := dset d2 "edge_knots_" g }
+      checkBy data by_
+      let ek ← splineKnots a.d fd
+      let dt ← attr (dset (dset a.d "edge_knots_" ek) "n_splines" (vint fd.nuniq)) "dtype"
+      let g ← genEdgeKnots fd dt
+      .ok { a with d := dset (dset (dset a.d "edge_knots_" ek) "n_splines" (vint fd.nuniq)) "edge_knots_" g }
 
 def compileAtoms (data : List FeatData) : List Atom → Except Err (List Atom)
   | [] => .ok []
@@ -791,10 +805,7 @@ def compileTerm (data : List FeatData) : Term → Except Err Term
   | .atom a => (compileAtom data a).map .atom
   | .tensor d ms => do
       let ms' ← compileAtoms data ms
-      match (dget d "by").getD vnone with
-      | .sc .none => pure ()
-      | .sc (.int b) => if b ≥ data.length then .error .value else pure ()
-      | _ => .error .unsupported
+      checkBy data ((dget d "by").getD vnone)
       .ok (.tensor d ms')
 
 def compileTerms (data : List FeatData) : List Term → Except Err (List Term)
@@ -823,8 +834,9 @@ structure Gam where
   verbose : Bool
 
 def ownGet (own : List (String × Tree)) (k : String) : Option Tree := own.lookup k
-def ownSet (own : List (String × Tree)) (k : String) (v : Tree) : List (String × Tree) :=
-  if (own.lookup k).isSome then own.map (fun p => if p.1 = k then (k, v) else p) else own ++ [(k, v)]
+def ownSet : List (String × Tree) → String → Tree → List (String × Tree)
+  | [], k, v => [(k, v)]
+  | (k', v') :: r, k, v => if k' = k then (k, v) :: r else (k', v') :: ownSet r k v
 
 /-- `GAM.__init__(terms, fit_intercept, verbose, **kwargs)`; during `__init__` the instance has no terms
 location yet, so plural keywords land in the instance dictionary -/
@@ -871,18 +883,23 @@ def autoTerms (verbose : Bool) : Nat → Nat → Except Err (List Term)
       let r ← autoTerms verbose (i + 1) n
       .ok (.atom a :: r)
 
-/-- `GAM._validate_data_dep_params(X)` -/
-def Gam.fit (g : Gam) (data : List FeatData) : Except Err Gam := do
+/-- the first half of `GAM._validate_data_dep_params(X)`: `'auto'` ↦ one spline per feature, `None` ↦ no terms,
+a user expression ↦ `TermList(terms, verbose=…)` (a fresh list: de-duplicated again); then `+ Intercept()` -/
+def Gam.baseTerms (g : Gam) (data : List FeatData) : Except Err TermList := do
   let l0 ← match g.terms with
     | .auto => do
         let ts ← autoTerms g.verbose 0 data.length
         pure (TermList.mk' (ts.map .inl) false)
     | .none => pure (TermList.mk' [] false)
     | .list l => pure (TermList.mk' [.inr l.terms] g.verbose)
-  let l1 ← if g.fitIntercept then do
-      let i ← construct .intercept []
-      pure (TermList.mk' [.inr l0.terms, .inl (.atom i)] false)
-    else pure l0
+  if g.fitIntercept then do
+    let i ← construct .intercept []
+    pure (TermList.mk' [.inr l0.terms, .inl (.atom i)] false)
+  else pure l0
+
+/-- `GAM._validate_data_dep_params(X)` -/
+def Gam.fit (g : Gam) (data : List FeatData) : Except Err Gam := do
+  let l1 ← g.baseTerms data
   if l1.terms.isEmpty then .error .value else
   let l2 ← handOver g.own l1
   let l3 ← l2.compile data
